@@ -62,6 +62,38 @@ theorem arrival_equivariance (mode : Mode) (items : List Item) (h0 : ∀ x ∈ i
   simp only [doCompetition, competeFrom, keptFrom, passOrder, hf, hf']
   rw [shuffle_shuffle items τ π₁ hτ]
 
+/-- "whatever order the groups arrive in (targets first, decoys first, interleaved)", in full: for
+    ANY rearrangement `items'` of the input — groups without peptides included — there is a fixed
+    well-formed index list `τ` such that running on `items'` with first shuffle `π₁` is running on
+    `items` with `π₁` composed with `τ`; composition maps well-formed shuffles to well-formed shuffles
+    and is injective, i.e. it permutes the `n!` possible first shuffles.  So if `π₁` is uniform the
+    result has the same distribution for every arrival order. -/
+theorem arrival_order_absorbed (mode : Mode) (items items' : List Item) (h : items'.Perm items) :
+    ∃ τ : List Nat, τ.Perm (List.range (items.filter (·.hasEvidence)).length) ∧
+      (∀ π₁ π₂ : List Nat, doCompetition mode items' π₁ π₂ =
+        doCompetition mode items (π₁.filterMap (fun i => τ[i]?)) π₂) ∧
+      (∀ π₁ : List Nat, π₁.Perm (List.range (items.filter (·.hasEvidence)).length) →
+        (π₁.filterMap (fun i => τ[i]?)).Perm (List.range (items.filter (·.hasEvidence)).length)) ∧
+      (∀ π₁ π₁' : List Nat, π₁.Perm (List.range (items.filter (·.hasEvidence)).length) →
+        π₁'.Perm (List.range (items.filter (·.hasEvidence)).length) →
+        π₁.filterMap (fun i => τ[i]?) = π₁'.filterMap (fun i => τ[i]?) → π₁ = π₁') := by
+  obtain ⟨τ, hτ, hsh⟩ := exists_shuffle_of_perm (h.filter (·.hasEvidence))
+  have hlt : ∀ t ∈ τ, t < (items.filter (·.hasEvidence)).length :=
+    fun t ht => List.mem_range.mp (hτ.subset ht)
+  have hτlen : τ.length = (items.filter (·.hasEvidence)).length := by
+    rw [hτ.length_eq, List.length_range]
+  refine ⟨τ, hτ, ?_, ?_, ?_⟩
+  · intro π₁ π₂
+    simp only [doCompetition, competeFrom, keptFrom, passOrder, hsh]
+    rw [shuffle_shuffle _ τ π₁ hlt]
+  · intro π₁ hπ₁
+    rw [← hτlen] at hπ₁
+    exact (shuffle_perm τ π₁ hπ₁).trans hτ
+  · intro π₁ π₁' h1 h1' heq
+    apply compose_injective τ (hτ.nodup_iff.mpr List.nodup_range) π₁ π₁' _ _ heq
+    · intro i hi; rw [hτlen]; exact List.mem_range.mp (h1.subset hi)
+    · intro i hi; rw [hτlen]; exact List.mem_range.mp (h1'.subset hi)
+
 /-- "the sort keys contain only score (and the placeholder flag), never the decoy flag or input
     position": both comparisons are functions of (score, placeholder flag) resp. score alone -/
 theorem keys_ignore_decoy_and_position (a a' b b' : Item)
@@ -109,5 +141,60 @@ theorem shuffled_tie_class_is_induced {α : Type} (x : List α) (p : α → Bool
   unfold induced
   rw [List.filter_map, List.filter_map, List.map_map]
   rfl
+
+/-! ## Non-vacuity
+
+Two targets and two decoys, all of score 2, listed targets first.  With `π₁ = [2,0,3,1]` the pass
+order is `REV__C, A, REV__D, B`; all four survive; with `π₂ = [3,2,1,0]` the ranking is
+`B, REV__D, A, REV__C`: the order of the tie class is the shuffles', not the input's.  (All keys are
+equal, so both sorts leave their argument alone — `mergeSort` does not reduce in the kernel.) -/
+
+private def tA : Item := ⟨["A"], [⟨1/100, "PEPA", ["A"]⟩], 2⟩
+private def tB : Item := ⟨["B"], [⟨1/100, "PEPB", ["B"]⟩], 2⟩
+private def dC : Item := ⟨["REV__C"], [⟨1/100, "PEPC", ["REV__C"]⟩], 2⟩
+private def dD : Item := ⟨["REV__D"], [⟨1/100, "PEPD", ["REV__D"]⟩], 2⟩
+private def exItems : List Item := [tA, tB, dC, dD]
+
+private theorem ex_passOrder : passOrder exItems [2, 0, 3, 1] = [dC, tA, dD, tB] := by
+  unfold passOrder
+  have : shuffle (exItems.filter (·.hasEvidence)) [2, 0, 3, 1] = [dC, tA, dD, tB] := by decide +kernel
+  rw [this]
+  apply List.mergeSort_of_pairwise
+  decide +kernel
+
+private theorem ex_out :
+    doCompetition (.pickedGroup .leading) exItems [2, 0, 3, 1] [3, 2, 1, 0] = [tB, dD, tA, dC] := by
+  rw [doCompetition_eq]
+  unfold keptFrom
+  rw [ex_passOrder]
+  have : shuffle (pass (strategy (.pickedGroup .leading)) contam [] [dC, tA, dD, tB]) [3, 2, 1, 0] =
+      [tB, dD, tA, dC] := by decide +kernel
+  rw [this]
+  apply List.mergeSort_of_pairwise
+  decide +kernel
+
+/-- a tie class of four in `ties_follow_shuffle` (`q = 2`), ranked as the second shuffle left it -/
+example : (doCompetition (.pickedGroup .leading) exItems [2, 0, 3, 1] [3, 2, 1, 0]).filter
+    (fun x => decide (x.score = 2)) = [tB, dD, tA, dC] := by
+  rw [ex_out]; decide +kernel
+
+/-- hypotheses of `ties_follow_shuffle_pair`: decoy `REV__D` before target `A` after the second shuffle -/
+example : dD.score = tA.score ∧
+    [dD, tA].Sublist (shuffle (keptFrom (.pickedGroup .leading) [] exItems [2, 0, 3, 1]) [3, 2, 1, 0]) := by
+  unfold keptFrom
+  rw [ex_passOrder]
+  decide +kernel
+
+/-- hypotheses of `arrival_equivariance` (decoys-first arrival `τ = [2,3,0,1]`) and of
+    `arrival_order_absorbed` -/
+example : (∀ x ∈ exItems, x.hasEvidence = true) ∧ [2, 3, 0, 1].Perm (List.range exItems.length) ∧
+    (shuffle exItems [2, 3, 0, 1]).Perm exItems := by
+  decide +kernel
+
+open Equiv in
+/-- hypotheses of `uniform_induced_order`: positions 0 and 1 tied (`S`), `ρ` exchanges them -/
+example : ∀ x : Fin 3, (fun i : Fin 3 => decide (i ≠ 2)) ((swap (0 : Fin 3) 1) x) =
+    (fun i : Fin 3 => decide (i ≠ 2)) x := by
+  decide
 
 end PgFdr.C14
